@@ -167,6 +167,23 @@ func genC08(c *Ctx) {
 	for k := 0; k <= maxK; k++ {
 		rec(k, nil, 0)
 	}
+	// many inputs (more than 64 / 128: index sets kept in machine words, fixed-size scratch arrays)
+	for _, k := range []int{63, 64, 65, 70, 129, 260} {
+		ins := make([][]kt, k)
+		tag := 0
+		for j := 0; j < k; j++ {
+			for x := 0; x < 1+j%3; x++ {
+				ins[j] = append(ins[j], kt{int64((j*7+x*5)%11 + x*11), tag})
+				tag++
+			}
+		}
+		emitC08(c, ins)
+		// the same with every third input empty
+		for j := 0; j < k; j += 3 {
+			ins[j] = nil
+		}
+		emitC08(c, ins)
+	}
 	// seeded random larger ones
 	n := c.Pick(2000, 40000)
 	for i := 0; i < n; i++ {
